@@ -123,7 +123,8 @@ func c15Build(c c15Config) *c15World {
 				return c15FastDep(func(u *c15Unmapped) { w.events = append(w.events, "BODY-RAN-WITHOUT-DEPENDENCY") })
 			}
 			if c.Phase == "unresolved-dependency" {
-				return func(ctx flamego.Context, u *c15Unmapped) { w.events = append(w.events, "BODY-RAN-WITHOUT-DEPENDENCY") }
+				// (the unresolvable parameter comes first: resolution fails before the other one is looked at)
+				return func(u *c15Unmapped, ctx flamego.Context) { w.events = append(w.events, "BODY-RAN-WITHOUT-DEPENDENCY") }
 			}
 			return func(ctx flamego.Context) {
 				if ctx.Request().URL.Path != "/p" {
@@ -251,10 +252,18 @@ func c15Build(c c15Config) *c15World {
 	}
 	if c.Phase == "unresolved-dependency" {
 		// the normal route has the same stack minus the unresolvable handler
+		// ... and, in place of the unresolvable handler, a handler of the SAME function type whose dependency a
+		// handler just before it maps for the request: what failed to resolve for one request resolves for another
 		var ok []flamego.Handler
 		for i, h := range hs {
 			if i != c.P {
 				ok = append(ok, h)
+				continue
+			}
+			if !c.FastDep {
+				ok = append(ok,
+					func(ctx flamego.Context) { ctx.Map(&c15Unmapped{}) },
+					func(u *c15Unmapped, ctx flamego.Context) { w.events = append(w.events, fmt.Sprintf("dependency-resolved:%v", u != nil)) })
 			}
 		}
 		switch c.Style {
@@ -371,6 +380,9 @@ func c15Judge(c c15Config, seq string) (bad, kind string) {
 			}
 		} else {
 			rs := w.serve("/n")
+			if rs.escaped != nil || rs.status >= 500 {
+				return fmt.Sprintf("request %d (normal, no handler of it panics) after %q: status %d body %q escaped %v events %s", i+1, seq[:i], rs.status, trunc(rs.body), rs.escaped, rs.events), "normal-request-not-served"
+			}
 			if rs != fresh {
 				return fmt.Sprintf("request %d (normal) after %q differs from the same request on a fresh instance: status %d body %q events %s vs status %d body %q events %s",
 					i+1, seq[:i], rs.status, trunc(rs.body), rs.events, fresh.status, trunc(fresh.body), fresh.events), "later-request-affected"
